@@ -115,3 +115,12 @@ Definition gcase_agrees (c : gcase) : bool := list_eqb gobs_eqb (g_trace pm_new 
 Definition gcase_mon (c : gcase) : bool :=
   forallb (gobs_ok (gc_owner c)) (gc_obs c) &&
   g_outlive_ok (fun _ => 0) (gc_owner c) (gc_labels c) (gc_obs c).
+
+(* ---- racing writers (driver peerrace): a late exit callback, a Disconnected and a Connected (or a send) of one
+   peer queued on the table lock and released together.  Every order is a run of PeerMgr labels, so the invariants
+   hold whatever the order; the case carries the snapshot after the next send and the statuses after the peer's
+   last disconnect, and only the monitor is evaluated. *)
+Record rcase := { rc_owner : list peer; rc_after_send : pmobs; rc_peer : peer; rc_final_status : list N }.
+Definition rcase_mon (c : rcase) : bool :=
+  obs_ok (rc_owner c) (rc_after_send c) &&
+  forallb (fun x => negb (N.eqb (fst x) (rc_peer c) && N.eqb (snd x) 0)) (combine (rc_owner c) (rc_final_status c)).
